@@ -401,7 +401,7 @@ def oracle_c02(script, c_lines):
 
 
 def _iter(s):
-    if s == "end":
+    if s in ("end", "-"):
         return None
     m = re.match(r"\((-?\d+),(-?\d+),(-?\d+)(\+\d+)?\)$", s)
     if not m:
@@ -481,6 +481,12 @@ def oracle_c08(script, c_lines):
             k = int(w[2])
             if it != ref.get(k):
                 return pre + "find yields %s, reference %s" % (it, ref.get(k))
+        elif o == "erasen":
+            k = int(w[2])
+            r = int(f["r"])
+            if (k in ref) != (r == 0) or r not in (0, -1):
+                return pre + "erase without iterator returned %d, key %s" % (r, "present" if k in ref else "absent")
+            ref.pop(k, None)
         elif o in ("erase", "eraseit"):
             k = int(w[2])
             if o == "erase":
@@ -598,7 +604,7 @@ def map_alphabet(nkeys, vals=(0, 1), absent=True):
                 for a in (1, 0):
                     ops.append("map ins %d %d %d" % (ko, v, a))
         for k in list(range(nkeys)) + ([nkeys + 3] if absent else []):
-            ops += ["map find %d" % k, "map erase %d" % k, "map eraseit %d" % k]
+            ops += ["map find %d" % k, "map erase %d" % k, "map eraseit %d" % k, "map erasen %d" % k]
         ops += ["map clear", "map clear0"]
         return ops
     return alpha
@@ -727,7 +733,7 @@ def random_map_scripts(rng, count, length, nkeys, hashed):
             elif r < 0.60:
                 sc.append("map find %d" % k)
             elif r < 0.80:
-                sc.append("map erase %d" % k)
+                sc.append("map %s %d" % ("erase" if rng.random() < 0.7 else "erasen", k))
             elif r < 0.95:
                 sc.append("map eraseit %d" % k)
             elif r < 0.97:
